@@ -620,6 +620,20 @@ func c04Retemp(p *prng, dir int) {
 		if err := r.ke.SetTemperature(Tnow * factor); err != nil {
 			panic(err)
 		}
+		// a REFUSED SetTemperature (non-positive value: answered with an error) leaves the temperature in force
+		if seg%2 == 1 {
+			want := r.ke.Temperature
+			bad := []float64{0, -2.5, -Tnow}[p.intn(3)]
+			if err := r.ke.SetTemperature(bad); err == nil {
+				emit(J{"kind": "oracle", "what": "SetTemperature accepted a non-positive temperature", "value": bad})
+			}
+			if r.ke.Temperature != want {
+				emit(J{"kind": "oracle", "what": "a refused SetTemperature changed the temperature in force (the Metropolis rule is then applied at a non-positive temperature)",
+					"refused_value": bad, "temperature_before": want, "temperature_after": r.ke.Temperature})
+				r.ke.SetTemperature(want) // carry on at the temperature that should be in force
+			}
+			c04stats["refused_set_temperature_calls"]++
+		}
 		r.t0 = r.ke.Temperature
 		r.obj0 = r.ke.ObjectiveValue()
 		c04stats["set_temperature_calls"]++
